@@ -1,8 +1,8 @@
 CONSTANTS
-  MaxA = 3
-  Budget = 2
+  MaxA = 2
+  Budget = 1
   MaxLoop = 10
-  HasTry = FALSE
+  HasTry = TRUE
   Behaviours = {"ok", "5xx", "close", "never", "connfail", "okclose"}
   Defects = {}
 SPECIFICATION Spec
